@@ -196,18 +196,19 @@ Polled(t) ==
 
 (* a thread pops task k from a tier it polls and runs it (a future already run by a getter *)
 (* leaves a husk: popping it runs nothing)                                                 *)
-Take(t, k) ==
+TakeTier(t, k) ==
   /\ tier[k] \in Polled(t)
   /\ tier' = [tier EXCEPT ![k] = Taken]
-  /\ IF run[k] = "ns"
-       THEN /\ stk' = PushFrame(stk, t, k)
-            /\ run' = [run EXCEPT ![k] = "running"]
-            /\ cnt' = [cnt EXCEPT ![k] = @ + 1]
-       ELSE UNCHANGED <<conf, stk, run, cnt>>
   /\ prefer' = IF Idle(t) /\ tier[k][1] = "ring" THEN [prefer EXCEPT ![WIdx(t)] = TRUE]
                ELSE IF Idle(t) /\ tier[k][1] = "central" THEN [prefer EXCEPT ![WIdx(t)] = FALSE]
                ELSE prefer
-  /\ UNCHANGED <<conf, out, asleep>>
+TakeRun(t, k) ==
+  IF run[k] = "ns"
+    THEN /\ stk' = PushFrame(stk, t, k)
+         /\ run' = [run EXCEPT ![k] = "running"]
+         /\ cnt' = [cnt EXCEPT ![k] = @ + 1]
+    ELSE UNCHANGED <<stk, run, cnt>>
+Take(t, k) == TakeTier(t, k) /\ TakeRun(t, k) /\ UNCHANGED <<conf, out, asleep>>
 
 EnterWait(t) ==
   /\ HasOp(t) /\ Top(t).m = "run" /\ CurOp(t).op = "wait"
